@@ -91,8 +91,9 @@ pub enum Op {
     /// and so is one beyond the invoice table limit
     Issue { h: u8, amt: u8 },
     /// macro: bookkeeping that has gone stale, then refusals: an issued invoice and an approved
-    /// one for hash h, more than a day later (no heartbeat in between) a live issued invoice for
-    /// another hash, a different invoice for that same hash (refused), and a re-approval
+    /// one for hash h; half a day later an issued invoice for another hash; another half day later
+    /// (the first is now past expiry plus the day it is kept, the second is not; no heartbeat in
+    /// between) a different invoice for the second hash (refused), and an approval
     Stale { h: u8 },
 }
 
@@ -112,8 +113,9 @@ pub fn expand_macro(op: &Op) -> Option<Vec<Op>> {
         Op::Stale { h } => Some(vec![
             Op::Issue { h: *h, amt: 0 },
             Op::Approve { h: *h, amt: 0, keysend: false },
-            Op::AdvanceTime { secs: 100_000 },
+            Op::AdvanceTime { secs: 50_000 },
             Op::Issue { h: h ^ 1, amt: 0 },
+            Op::AdvanceTime { secs: 50_000 },
             Op::Issue { h: h ^ 1, amt: 1 },
             Op::Approve { h: h ^ 1, amt: 2, keysend: true },
         ]),
